@@ -2,7 +2,8 @@
    rejection of unsupported input, memoisation; Agree.v: the model of the implementation against
    the transcription of the specification) and adds the refutations of conformance for the code
    before the two repairs of build/proposed/C06.diff. *)
-From Sophia.C06 Require Export Model Limits Agree.
+From Sophia.C06 Require Export Model Limits Agree1 Agree2 Agree.
+From Sophia.C05 Require Export Reader.
 
 (* does the canonical document of variant [v] differ from the specification's? *)
 Definition differs_from_spec (v : variant) (H : str -> str) (d : list quad) (fuel : nat) : bool :=
